@@ -240,6 +240,8 @@ def check_resample(pre, post, ne, flag, an=None):
     for (c1, c2) in sorted(an["adj"]):
         if (c1, c2) in post_adj:
             continue
+        if c1 not in an["cells_with_j"] or c2 not in an["cells_with_j"]:
+            continue   # a cell without a junction may vanish, and its adjacencies with it
         if merging:
             # the whole shared boundary may have been contractible: the cells then meet at a point
             sh = an["shared"][(c1, c2)]
